@@ -20,6 +20,9 @@ func nextID() uint32 { return 1000 + idSeq.Add(1) }
 type lineup struct {
 	expiryHit, acceptGot, release chan struct{}
 	o1, o2                        sync.Once
+	// holdAccepted: the bookkeeping goroutine of a parked connection that was accepted is held (until
+	// release) between noticing the accept and cleaning up its entry
+	holdAccepted bool
 }
 
 var (
@@ -45,6 +48,10 @@ func c09Hook(name string, id uint32) {
 		<-lu.release
 	case "mux.accept.gotConn":
 		lu.o2.Do(func() { close(lu.acceptGot) })
+	case "mux.timeoutWait.accepted":
+		if lu.holdAccepted {
+			<-lu.release
+		}
 	}
 }
 
@@ -207,6 +214,30 @@ func TestC09(t *testing.T) {
 					addErr("dial1: " + pr.dialOnce(side, id))
 					wg.Wait()
 					addErr("dial2: " + pr.dialOnce(side, id))
+				case "matched-then-dial-again-held", "matched-then-pair-again-held":
+					// (mux) as matched-then-dial-again, but the next use of the id arrives while the goroutine
+					// that cleans up after the first pair has not run yet (held at mux.timeoutWait.accepted;
+					// released 300 ms later): either a second dial that nobody accepts, which must fail within
+					// the window, or a second accept with its dial, which must connect
+					lu := &lineup{expiryHit: make(chan struct{}), acceptGot: make(chan struct{}), release: make(chan struct{}), holdAccepted: true}
+					lineups.Store(id, lu)
+					var wg sync.WaitGroup
+					wg.Add(1)
+					go func() { defer wg.Done(); addErr("accept: " + pr.acceptOnce(other(side), id, 0)) }()
+					time.Sleep(200 * time.Millisecond)
+					addErr("dial1: " + pr.dialOnce(side, id))
+					wg.Wait()
+					go func() { time.Sleep(300 * time.Millisecond); close(lu.release) }()
+					if name == "matched-then-dial-again-held" {
+						addErr("dial2: " + pr.dialOnce(side, id))
+					} else {
+						wg.Add(1)
+						go func() { defer wg.Done(); addErr("accept2: " + pr.acceptOnce(other(side), id, 0)) }()
+						time.Sleep(100 * time.Millisecond)
+						addErr("dial3: " + pr.dialOnce(side, id))
+						wg.Wait()
+					}
+					lineups.Delete(id)
 				case "dial-timeout-then-accept":
 					addErr(pr.dialOnce(side, id))
 					if pr.kind == "mux" {
